@@ -45,8 +45,11 @@ RULE = ("Per case a scratch HOME and scratch cwd (separate, cwd nested below HOM
         "command line with different values.")
 ASSUMPTIONS = [
     "BEHAVE_COLOR and BEHAVE_STAGE are removed from the environment (they change the defaults of color/stage)",
-    "several configuration files: only options set in exactly one file are compared (two files never set the same "
-    "option; format+outfiles always live in the same file); file userdata is only compared when there is one file "
+    "several configuration files: options are set in exactly one file (format+outfiles always live in the same file) "
+    "-- except a few simple scalars that may be set in the file in HOME and in the file in the working directory at "
+    "once, where the working-directory (per-project) value is expected (docs/behave.rst lists the places in that "
+    "order and calls them per-project and per-user settings); two files in the SAME directory never set the same "
+    "option (their mutual order is OPEN); file userdata is only compared when there is one file "
     "(every file replaces the whole userdata dictionary): merging of files with each other is OPEN",
     "defaults that docs/behave.rst does not state are not compared (summary, junit_directory, runner); flags without a "
     "documented default are expected off; unset text options are expected None and unset sequences empty/None",
@@ -350,10 +353,16 @@ def tag_dialects(entries, allow_placeholder):
 # ---------------------------------------------------------------------------
 # case access / validation
 # ---------------------------------------------------------------------------
+# options that may be assigned in a per-user file (home) AND in a per-project file (cwd): the project's value counts
+DUP_DESTS = ("stage", "lang", "logging_level", "logging_filter", "jobs", "junit_directory", "runner")
+
+
 def file_values(case):
     vals = {}
     for index, f in enumerate(case["files"]):
         for o in f["opts"]:
+            if o["d"] in vals and case["files"][vals[o["d"]][1]]["where"] == "cwd":
+                continue        # the file in the working directory (per-project) wins over the one in HOME (per-user)
             vals[o["d"]] = (o["v"], index)
     return vals
 
@@ -425,7 +434,10 @@ def validate(case):
             _req(isinstance(o, dict) and "d" in o and "v" in o, "file option shape")
             d, v = o["d"], o["v"]
             _req(d in BOOLS or d in SCALARS or d in LISTS, "file option %r" % (d,))
-            _req(d not in seen, "option %s set twice in files" % d)
+            if d in seen:
+                other = files[seen[d]]
+                _req(d in DUP_DESTS and case["layout"] != "same" and other["where"] != f["where"],
+                     "option %s set twice in files" % d)
             seen[d] = index
             if d in LISTS:
                 _req(isinstance(v, list) and v and all(isinstance(x, str) for x in v), "list value of %s" % d)
@@ -1128,6 +1140,9 @@ def _labels(res, case, exp, fv, cv):
             res.label("list-on-new-lines")
         if f["name"] != TOML_NAME and any(o.get("interp") for o in f["opts"]):
             res.label("ini:interpolation")
+        if any(o["d"] == o2["d"] and o["v"] != o2["v"] for f2 in case["files"] if f2 is not f
+               for o in f["opts"] for o2 in f2["opts"]):
+            res.label("project-file-over-user-file")
         if any(o["d"] in ("include_re", "exclude_re") and o["v"] in BROKEN_RE for o in f["opts"]):
             res.label("overridden-file-value-unusable:pattern")
         if any(o["d"] == "default_format" and o["v"] in UNRESOLVABLE_FORMAT for o in f["opts"]):
@@ -1350,6 +1365,12 @@ def case_st(draw, toml_ok=True, focus="options"):
     gets = []
     if ndef or file_ud_names:
         gets = draw(st.lists(getter_st(), max_size=4 if focus == "userdata" else 1))
+    # -- the same option in the per-user file (HOME) and in the per-project file (working directory)
+    if len(files) == 2 and layout != "same" and files[0]["where"] != files[1]["where"] and draw(st.integers(0, 2)) == 0:
+        for a, b in ((files[0], files[1]), (files[1], files[0])):
+            for opt in list(a["opts"]):
+                if opt["d"] in DUP_DESTS and not any(o["d"] == opt["d"] for o in b["opts"]) and draw(st.booleans()):
+                    b["opts"].append({"d": opt["d"], "v": draw(value_st(opt["d"], avoid=opt["v"]))})
     # -- a file value that is unusable where it stands but overridden by the command line never comes to use
     cli_dests = set(item["d"] for item in cli)
     for f in files:
@@ -1467,7 +1488,7 @@ def required_labels(tier):
               "define", "define:lone-quote", "userdata-override", "file-userdata", "getter:default",
               "getter:ValueError", "getter:converted", "list-on-new-lines", "all-defaults", "ini:interpolation",
               "ini:escaped-per-cent", "overridden-file-value-unusable:pattern",
-              "overridden-file-value-unusable:default_format"]
+              "overridden-file-value-unusable:default_format", "project-file-over-user-file"]
     if toml_available():
         labels.append("file:" + TOML_NAME)
     return labels
@@ -1478,3 +1499,4 @@ KNOWN_PREDICATES = {}
 
 RULE = RULE + " " + ("The getter table includes zero-padded and prefixed numbers ('007', '-08', '0x10', '+3', '1_0').")
 RULE = RULE + " " + ('File values that are unusable where they stand (an include/exclude pattern that is no regular expression, a default_format that cannot be resolved) occur when the command line overrides them (-i/-e, -f): they never come to use.')
+RULE = RULE + " " + ('A few simple options are assigned in the per-user file (HOME) and in the per-project file (working directory) at once, under any pair of file names: the project file counts (docs: working directory = per-project settings, home = user settings).')
